@@ -775,3 +775,90 @@ func handoffWithdrawn(c *cx, id string, rel, fname, queue string) {
 	}
 	c.r.Floor(id, "non-completion exits after the hand-off was queued", n, 1)
 }
+
+// registrationWithdrawn (E-res for waiter tables): a function that registers
+// itself in a table the serve loop consults (a map field) and then waits with
+// a cancellation arm removes its registration when the wait ends by
+// cancellation: a deferred closure that deletes from the table, or a delete on
+// every path from the cancellation arm to the exit. A registration left behind
+// makes the serve loop hand a later stanza to nobody.
+func registrationWithdrawn(c *cx, id string, cls string, floor int) {
+	n := 0
+	for _, f := range c.allFns() {
+		if f.Body == nil {
+			continue
+		}
+		stores := false
+		for _, mu := range f.MapUpdates() {
+			if k, _ := f.FieldClass(mu.Map); k == cls && !mu.Delete {
+				stores = true
+			}
+		}
+		if !stores {
+			continue
+		}
+		g := f.Graph()
+		isDelete := func(q eng.Point, nd ast.Node) bool {
+			found := false
+			ast.Inspect(nd, func(x ast.Node) bool {
+				if cl, ok := x.(*ast.CallExpr); ok && f.CalleeID(cl) == "builtin.delete" && len(cl.Args) == 2 {
+					if k, _ := f.FieldClass(cl.Args[0]); k == cls {
+						found = true
+					}
+				}
+				return !found
+			})
+			return found
+		}
+		deferred := false
+		for _, ds := range g.Defers {
+			if l, ok := ast.Unparen(ds.Call.Fun).(*ast.FuncLit); ok && isDelete(eng.Point{}, l.Body) {
+				deferred = true
+			}
+		}
+		// registered BEFORE the request is written: a reply that is handled
+		// before the write call returns must already find the waiter
+		isStore := func(q eng.Point, nd ast.Node) bool {
+			for _, mu := range f.MapUpdates() {
+				if mu.Node == nd && !mu.Delete {
+					if k, _ := f.FieldClass(mu.Map); k == cls {
+						return true
+					}
+				}
+			}
+			return false
+		}
+		for _, cl := range f.AllCalls() {
+			fo := calleeFunc(f, cl)
+			if fo == nil || !strings.HasPrefix(fo.Name(), "Send") {
+				continue
+			}
+			if sig, ok := fo.Type().(*types.Signature); !ok || sig.Recv() == nil || !strings.HasSuffix(eng.TypeStr(sig.Recv().Type()), "xmpp.Session") {
+				continue
+			}
+			sp, _ := g.Where(cl)
+			c.r.Check(id, f, "registration in "+cls+" precedes "+fo.Name(), "O: the waiter is registered before the request is written (a reply handled before the write returns is not missed)", cl.Pos(), g.MustPassBefore(g.Entry(), sp, isStore, nil), "the request can be written before the waiter is in "+cls)
+		}
+		for _, ce := range g.EdgesMatching("selectarm(recv context.Context.Done[*]())") {
+			from := g.EdgeTarget(ce.E)
+			for _, rs := range returnsFrom(f, from, nil) {
+				n++
+				rp, _ := g.Where(rs)
+				// "only if the entry is still ours": an edge whose fact talks about
+				// the table's current entry for the key may skip the delete
+				field := cls[strings.LastIndex(cls, ".")+1:]
+				skip := eng.Cut{}
+				for _, e2 := range g.CondEdges() {
+					for _, a := range e2.Atoms {
+						if strings.Contains(a.S, "."+field+"[") && (strings.HasPrefix(a.S, "or(!") || strings.HasPrefix(a.S, "!")) {
+							skip[e2.E] = true
+						}
+					}
+				}
+				ok := deferred || !g.Reachable(from, rp, skip, isDelete)
+				c.r.Check(id, f, "registration in "+cls+" withdrawn on cancellation", "E-res: a wait that ends with the context's error removes its registration from the table the serve loop consults", rs.Pos(), ok, "the entry stays in "+cls+": a later stanza for it is handed to a waiter that has gone")
+			}
+		}
+	}
+	c.r.Floor(id, "cancellation exits of functions that register in "+cls, n, floor)
+}
